@@ -5,6 +5,8 @@ import Ivg.Gen.Tie.Magic
 import Ivg.Gen.Tie.Dc1
 import Ivg.Gen.Tie.Mids
 import Ivg.Gen.Tie.DefaultViewBox
+import Ivg.Gen.Tie.Code.DecNumbers
+import Ivg.Gen.Tie.Code.DecColors
 import Ivg.Obligations
 /-!
 # C03 — decoding implements the IconVG FFV0 byte grammar, exactly
@@ -178,4 +180,24 @@ end Ivg.Props.C03
   Ivg.Props.C03.styling_dispatch, Ivg.Props.C03.drawing_dispatch,
   Ivg.Props.C03.instruction_eq, Ivg.Props.C03.instructions_eq, Ivg.Props.C03.chunks_eq,
   Ivg.Gen.Tie.drawOps_tie, Ivg.Gen.Tie.magic_tie, Ivg.Gen.Tie.dc1Table_tie, Ivg.Gen.Tie.mids_tie,
-  Ivg.Gen.Tie.defaultViewBox_tie, Ivg.Gen.Tie.decodeErrors_tie]
+  Ivg.Gen.Tie.defaultViewBox_tie, Ivg.Gen.Tie.decodeErrors_tie,
+  -- regenerated code (translator, Ivg/Gen/Code) = model, for all inputs: DecNumbers, DecColors
+  Ivg.Gen.Tie.decodeNatural_code_tie,
+  Ivg.Gen.Tie.decodeNatural_model_eq,
+  Ivg.Gen.Tie.decodeReal_code_tie,
+  Ivg.Gen.Tie.decodeReal_model_eq,
+  Ivg.Gen.Tie.decodeCoordinate_code_tie,
+  Ivg.Gen.Tie.decodeCoordinate_model_eq,
+  Ivg.Gen.Tie.decodeZeroToOne_code_tie,
+  Ivg.Gen.Tie.decodeZeroToOne_model_eq,
+  Ivg.Gen.Tie.isNaNOrInfinity_code_tie,
+  Ivg.Gen.Tie.buffer_decodeColor1_code_tie,
+  Ivg.Gen.Tie.decodeColor2_code_tie,
+  Ivg.Gen.Tie.decodeColor3Direct_code_tie,
+  Ivg.Gen.Tie.decodeColor4_code_tie,
+  Ivg.Gen.Tie.decodeColor3Indirect_code_tie,
+  Ivg.Gen.Tie.buffer_decodeColor1_model_eq,
+  Ivg.Gen.Tie.decodeColor2_model_eq,
+  Ivg.Gen.Tie.decodeColor3Direct_model_eq,
+  Ivg.Gen.Tie.decodeColor4_model_eq,
+  Ivg.Gen.Tie.decodeColor3Indirect_model_eq]
